@@ -745,10 +745,10 @@ def run(ctx):
     ctx.proof(props=["Molli.Props.C19"], gen=[])
     corpus = load_corpus()
     q = ctx.quick()
-    check_kernels(ctx, 250 if q else 3000, corpus)
-    check_prebuilt(ctx, 80 if q else 800)
-    check_grids(ctx, 60 if q else 500, corpus)
-    check_scenes(ctx, 30 if q else 300, corpus)
+    check_kernels(ctx, 250 if q else 8000, corpus)
+    check_prebuilt(ctx, 80 if q else 2500)
+    check_grids(ctx, 60 if q else 1500, corpus)
+    check_scenes(ctx, 30 if q else 1000, corpus)
 
 
 def replay(ctx, path):
